@@ -4,22 +4,22 @@
 (* the real sender), followed by the behaviours ("reset" ... "end").          *)
 EXTENDS ReceiverProps, IOUtils
 Rec == ndJsonDeserialize(IOEnv.TRACE)
-VARIABLES l, m, SS
-Init == l = 1 /\ m = [beh |-> -1] /\ SS = <<>>
+\* the sessions are constants of the run (evaluated once), not part of the monitor state
+SessIdx == {i \in 1..Len(Rec) : Rec[i].ev = "session"}
+SS == [sid \in {Rec[i].sid : i \in SessIdx} |-> Rec[CHOOSE i \in SessIdx : Rec[i].sid = sid]]
+VARIABLES l, m
+Init == l = 1 /\ m = [beh |-> -1]
 Next == /\ l <= Len(Rec)
         /\ LET e == Rec[l] IN
-           IF e.ev = "session"
-           THEN /\ SS' = [x \in DOMAIN SS \cup {e.sid} |-> IF x = e.sid THEN e ELSE SS[x]]
-                /\ m' = m
-           ELSE /\ SS' = SS
-                /\ IF e.ev = "reset"
-                   THEN m' = IF Has(e, "skip") \/ e.sid \notin DOMAIN SS \/ SS[e.sid].skip # "" THEN [beh |-> -1] ELSE NewMon(e)
-                   ELSE IF m.beh = -1 THEN m' = m
-                   ELSE LET S == SS[m.sid] IN
-                        /\ LET v == Viol(S, m, e) IN \A i \in 1..Len(v) : Report(v[i][1], v[i][2], m.beh, l, v[i][4])
-                        /\ m' = Step(S, m, e)
+           IF e.ev = "session" THEN m' = m
+           ELSE IF e.ev = "reset"
+                THEN m' = IF Has(e, "skip") \/ e.sid \notin DOMAIN SS \/ SS[e.sid].skip # "" THEN [beh |-> -1] ELSE NewMon(e)
+                ELSE IF m.beh = -1 THEN m' = m
+                ELSE LET S == SS[m.sid] IN
+                     /\ LET v == Viol(S, m, e) IN \A i \in 1..Len(v) : Report(v[i][1], v[i][2], m.beh, l, v[i][4])
+                     /\ m' = Step(S, m, e)
         /\ l' = l + 1
-Spec == Init /\ [][Next]_<<l, m, SS>>
+Spec == Init /\ [][Next]_<<l, m>>
 AllConsumed == IF TLCGet("stats").diameter = Len(Rec) + 1 THEN TRUE
                ELSE PrintT(<<"UNCONSUMED", TLCGet("stats").diameter, Len(Rec)>>) /\ FALSE
 =============================================================================
